@@ -224,8 +224,23 @@ def rule_r6(ctx):
             if len(a) < 2 or a[0] is None or a[0].get("k") != "var" or a[0]["n"] != uaio or a[1] is None or a[1].get("k") != "var":
                 continue
             defs = G.reaching_defs(f, a[1]["n"], (c.b, c.i))
-            parked = [d for _, d in defs if d is not None and d.get("k") == "call" and d.get("fn") == "nni_aio_get_msg" and d["args"] and
-                      (last_field(f.expand(d["args"][0])) or "").endswith(".aio_recv")]
+            def takes_parked(d, depth=0):
+                if d is None or d.get("k") != "call":
+                    return False
+                if d.get("fn") == "nni_aio_get_msg" and d["args"]:
+                    return (last_field(f.expand(d["args"][0])) or "").endswith(".aio_recv")
+                # a file-local helper that returns the message it took from the pipe's receive aio
+                h = prog.resolve(f, d["fn"]) if d.get("fn") and depth == 0 else None
+                if h is None or h.file != f.file or h.cfg_failed:
+                    return False
+                for t_ in h.sites():
+                    if t_.node.get("k") == "ret" and t_.node.get("e") is not None:
+                        v = G.resolve(h, t_.node["e"], (t_.b, t_.i))
+                        if v is not None and v.get("k") == "call" and v.get("fn") == "nni_aio_get_msg" and v["args"] and \
+                                (last_field(h.expand(v["args"][0])) or "").endswith(".aio_recv"):
+                            return True
+                return False
+            parked = [d for _, d in defs if takes_parked(d)]
             if not parked:
                 continue
             n += 1
